@@ -132,6 +132,11 @@ def main():
             broken_obligations.append(("theorem-axioms", f"{n}: {ax}"))
         for h in aud["forbidden"]:
             broken_obligations.append(("forbidden-construct", h))
+        if ctx.tier == "thorough":
+            ok, klog, ksec = lean_tools.kernel_recheck(pid)
+            ctx.notes.append(f"leanchecker Treepath.Props.{pid}: {'ok' if ok else 'FAILED'} ({ksec:.0f}s)")
+            if not ok:
+                broken_obligations.append(("kernel-recheck", klog))
         if not aud["theorems"]:
             broken_obligations.append(("no-theorems", f"Props/{pid}.lean states no theorem"))
 
